@@ -92,8 +92,11 @@ def run(ctx):
         recs += [dict(ev="exp", bytes=e["bytes"], closed=0, proto=0, req=e["req"], wok=e["wok"]) for e in evs if e["ev"] == "frame_exp"]
         # a write reported "context ended before it began" (n = 0, context error) must have left no bytes
         notstarted = {e["req"] for e in evs if e["ev"] == "x_wend" and e.get("err") == "ctx" and e.get("a") == 0}
+        # ... and so must a request whose context had ended before it was even submitted
+        callseq = {e["req"]: e["seq"] for e in evs if e["ev"] == "call"}
+        precancelled = {e["req"] for e in evs if e["ev"] == "env_cancel" and e["req"] in callseq and e["seq"] < callseq[e["req"]]}
         for rec in recs[1:]:
-            if rec["req"] in notstarted:
+            if rec["req"] in notstarted or rec["req"] in precancelled:
                 rec["wok"] = -2
         wp = path.replace(".ndjson", ".wire.ndjson")
         vf.write_ndjson(wp, recs)
